@@ -19,34 +19,15 @@ theorem Ext.setB (s : WState) (b : Builder) (hg : Grows s.b b) :
 theorem item_rel {L : List TypeKind} {a : Operand} {t : Ty} (h : a.typeDesc = t) : Rel L (.item a) (.val t) := by
   rw [← h]; exact Rel.item a
 
-theorem ordering_tok {tok : BinaryToken} {c : CmpOp} (h : tok.toOp = some (.cmp c)) (ho : isOrdering c = true) :
-    isOrderingTok tok = true := by
-  cases tok <;> simp [BinaryToken.toOp] at h <;> subst h <;> simp [isOrdering] at ho <;> rfl
-
-theorem const_null_typeDesc {a : Operand} (h : a = .const .nullPointer) : a.typeDesc = .nullPointer := by
-  subst h; rfl
-
-theorem isNullOrdering_true {op : BinaryOp} {l r : Operand} (h : isNullOrdering op l r = true) :
-    l = .const .nullPointer ∧ r = .const .nullPointer ∧ ∃ c, op = .cmp c ∧ isOrdering c = true := by
-  unfold isNullOrdering at h
-  split at h
-  · rename_i x y
-    unfold nullOrdering at h
-    split at h
-    · rename_i c
-      exact ⟨rfl, rfl, c, rfl, h⟩
-    · simp at h
-  · simp at h
-
 mutual
 
-theorem sound_expr (c : Ctx) : (e : Expr) → nno e = true → ExprSound c e
-  | .ident n, _ => by
+theorem sound_expr (c : Ctx) : (e : Expr) → ExprSound c e
+  | .ident n => by
     intro s s' sc i hinv h
     simp only [walkExpr] at h
     obtain ⟨rfl, r, hr, hrel⟩ := processIdentifier_ok hinv h
     exact ⟨Ext.refl _, r, by simp only [resolve, valueOfR_resolve]; exact hr, hrel⟩
-  | .this, _ => by
+  | .this => by
     intro s s' sc i hinv h
     simp only [walkExpr] at h
     cases ht : c.thisObj with
@@ -56,7 +37,7 @@ theorem sound_expr (c : Ctx) : (e : Expr) → nno e = true → ExprSound c e
       simp [ht] at h
       obtain ⟨rfl, rfl⟩ := h
       exact ⟨Ext.refl _, _, by simp only [resolve, valueOfR_resolve, worldOf_thisObj, ht]; rfl, Rel.item _⟩
-  | .integer v, _ => by
+  | .integer v => by
     intro s s' sc i hinv h
     simp only [walkExpr] at h
     obtain ⟨b, s1, h1, h2⟩ := bind_ok h
@@ -68,35 +49,34 @@ theorem sound_expr (c : Ctx) : (e : Expr) → nno e = true → ExprSound c e
     obtain ⟨b', h5, rfl⟩ := consume_ok h3
     obtain ⟨rfl, ht, hv⟩ := visitInteger_ok h5
     exact ⟨Ext.refl _, _, by simp only [resolve, valueOfR_resolve, hv, if_true], item_rel ht⟩
-  | .float v, _ => by
+  | .float v => by
     intro s s' sc i hinv h
     simp [walkExpr] at h
     obtain ⟨rfl, rfl⟩ := h
     exact ⟨Ext.refl _, _, by simp only [resolve, valueOfR_resolve]; rfl, Rel.item _⟩
-  | .string v, _ => by
+  | .string v => by
     intro s s' sc i hinv h
     simp [walkExpr] at h
     obtain ⟨rfl, rfl⟩ := h
     exact ⟨Ext.refl _, _, by simp only [resolve, valueOfR_resolve]; rfl, Rel.item _⟩
-  | .bool v, _ => by
+  | .bool v => by
     intro s s' sc i hinv h
     simp [walkExpr] at h
     obtain ⟨rfl, rfl⟩ := h
     exact ⟨Ext.refl _, _, by simp only [resolve, valueOfR_resolve]; rfl, Rel.item _⟩
-  | .null, _ => by
+  | .null => by
     intro s s' sc i hinv h
     simp [walkExpr] at h
     obtain ⟨rfl, rfl⟩ := h
     exact ⟨Ext.refl _, _, by simp only [resolve, valueOfR_resolve]; rfl, Rel.item _⟩
-  | .function, _ => by
+  | .function => by
     intro s s' sc i hinv h
     simp [walkExpr] at h
-  | .array es, hn => by
+  | .array es => by
     intro s s' sc i hinv h
-    simp only [nno] at hn
     simp only [walkExpr] at h
     obtain ⟨els, s1, h1, h2⟩ := bind_ok h
-    obtain ⟨hext, hts⟩ := sound_rvalues c es hn s s1 sc els hinv h1
+    obtain ⟨hext, hts⟩ := sound_rvalues c es s s1 sc els hinv h1
     obtain ⟨b, s2, h3, h4⟩ := bind_ok h2
     simp at h3
     obtain ⟨rfl, rfl⟩ := h3
@@ -109,12 +89,11 @@ theorem sound_expr (c : Ctx) : (e : Expr) → nno e = true → ExprSound c e
     simp only [resolve, valueOfR_resolve, hts, worldOf_env]
     rw [hat]
     rfl
-  | .member o n, hn => by
+  | .member o n => by
     intro s s' sc i hinv h
-    simp only [nno] at hn
     simp only [walkExpr] at h
     obtain ⟨x, s1, h1, h2⟩ := bind_ok h
-    obtain ⟨hext1, r0, hr0, hrel⟩ := sound_expr c o hn s s1 sc x hinv h1
+    obtain ⟨hext1, r0, hr0, hrel⟩ := sound_expr c o s s1 sc x hinv h1
     cases hrel with
     | item it =>
       obtain ⟨rfl, r, hr, hR⟩ := processItemProperty_ok h2
@@ -172,9 +151,8 @@ theorem sound_expr (c : Ctx) : (e : Expr) → nno e = true → ExprSound c e
     | type t =>
       obtain ⟨rfl, r, hr, hR⟩ := processTypeMember_ok h2
       exact ⟨hext1, r, by simp only [resolve, valueOfR_resolve, hr0, worldOf_env]; exact hr, hR _⟩
-  | .subscript o ix, hn => by
+  | .subscript o ix => by
     intro s s' sc i hinv h
-    simp only [nno, Bool.and_eq_true] at hn
     simp only [walkExpr] at h
     obtain ⟨ok, s2, hA, hB⟩ := bind_ok h
     rcases ok with ⟨ov, kd⟩
@@ -182,7 +160,7 @@ theorem sound_expr (c : Ctx) : (e : Expr) → nno e = true → ExprSound c e
     have hobj : Ext s s2 ∧ ∃ r0, resolve (worldOf c) sc o = .ok r0 ∧ valueOf r0 = .ok ov.typeDesc ∧
         isLoc r0 = decide (kd = .lvalue) := by
       obtain ⟨x, s1, h1, h2⟩ := bind_ok hA
-      obtain ⟨hext1, r0, hr0, hrel⟩ := sound_expr c o hn.1 s s1 sc x hinv h1
+      obtain ⟨hext1, r0, hr0, hrel⟩ := sound_expr c o s s1 sc x hinv h1
       cases hrel with
       | item it =>
         simp at h2
@@ -231,19 +209,18 @@ theorem sound_expr (c : Ctx) : (e : Expr) → nno e = true → ExprSound c e
     obtain ⟨hext2, r0, hr0, hv0, hflag⟩ := hobj
     simp only at hB
     obtain ⟨index, s3, h8, h9⟩ := bind_ok hB
-    obtain ⟨hext3, ht3⟩ := rvalue_of_expr (sound_expr c ix hn.2) s2 s3 sc index (hinv.ext hext2) h8
+    obtain ⟨hext3, ht3⟩ := rvalue_of_expr (sound_expr c ix) s2 s3 sc index (hinv.ext hext2) h8
     simp at h9
     obtain ⟨rfl, rfl⟩ := h9
     refine ⟨hext2.trans hext3, _, ?_, Rel.elem ov index kd⟩
     simp only [resolve, valueOfR_resolve, hr0, hv0, ht3, hflag]
-  | .call f args, hn => by
+  | .call f args => by
     intro s s' sc i hinv h
-    simp only [nno, Bool.and_eq_true] at hn
     simp only [walkExpr] at h
     obtain ⟨argv, s1, h1, h2⟩ := bind_ok h
-    obtain ⟨hext1, hts⟩ := sound_rvalues c args hn.2 s s1 sc argv hinv h1
+    obtain ⟨hext1, hts⟩ := sound_rvalues c args s s1 sc argv hinv h1
     obtain ⟨x, s2, h3, h4⟩ := bind_ok h2
-    obtain ⟨hext2, r0, hr0, hrel⟩ := sound_expr c f hn.1 s1 s2 sc x (hinv.ext hext1) h3
+    obtain ⟨hext2, r0, hr0, hrel⟩ := sound_expr c f s1 s2 sc x (hinv.ext hext1) h3
     cases hrel with
     | methods it ms sigs hs =>
       simp only at h4
@@ -276,14 +253,15 @@ theorem sound_expr (c : Ctx) : (e : Expr) → nno e = true → ExprSound c e
     | math => simp at h4
     | console => simp at h4
     | type t => simp at h4
-  | .assign l r, hn => by
+  | .assign l r => by
     intro s s' sc i hinv h
-    simp only [nno, Bool.and_eq_true] at hn
     simp only [walkExpr] at h
-    obtain ⟨rv, s1, h1, h2⟩ := bind_ok h
-    obtain ⟨hext1, ht1⟩ := rvalue_of_expr (sound_expr c r hn.2) s s1 sc rv hinv h1
-    obtain ⟨x, s2, h3, h4⟩ := bind_ok h2
-    obtain ⟨hext2, r0, hr0, hrel⟩ := sound_expr c l hn.1 s1 s2 sc x (hinv.ext hext1) h3
+    -- the left-hand reference is walked first, then the value (repair 5ccd31a)
+    obtain ⟨x, s1, h0, h2⟩ := bind_ok h
+    obtain ⟨hext1, r0, hr0, hrel0⟩ := sound_expr c l s s1 sc x hinv h0
+    obtain ⟨rv, s2, h3, h4⟩ := bind_ok h2
+    obtain ⟨hext2, ht1⟩ := rvalue_of_expr (sound_expr c r) s1 s2 sc rv (hinv.ext hext1) h3
+    have hrel := hrel0.grows hext2.grows
     cases hrel with
     | loc lc k t hl =>
       cases k with
@@ -338,12 +316,11 @@ theorem sound_expr (c : Ctx) : (e : Expr) → nno e = true → ExprSound c e
     | math => simp at h4
     | console => simp at h4
     | type t => simp at h4
-  | .unary tok a, hn => by
+  | .unary tok a => by
     intro s s' sc i hinv h
-    simp only [nno] at hn
     simp only [walkExpr] at h
     obtain ⟨arg, s1, h1, h2⟩ := bind_ok h
-    obtain ⟨hext1, ht1⟩ := rvalue_of_expr (sound_expr c a hn) s s1 sc arg hinv h1
+    obtain ⟨hext1, ht1⟩ := rvalue_of_expr (sound_expr c a) s s1 sc arg hinv h1
     cases hop : tok.toOp with
     | none => simp [hop] at h2
     | some op =>
@@ -358,10 +335,8 @@ theorem sound_expr (c : Ctx) : (e : Expr) → nno e = true → ExprSound c e
       obtain ⟨hu, hg⟩ := visitUnaryExpression_ok h7
       refine ⟨hext1.trans (Ext.setB _ _ hg), _, ?_, Rel.item x⟩
       simp only [resolve, valueOfR_resolve, ht1, unaryOf_eq, hop, hu]
-  | .binary tok l r, hn => by
+  | .binary tok l r => by
     intro s s' sc i hinv h
-    simp only [nno, Bool.and_eq_true, Bool.not_eq_true'] at hn
-    obtain ⟨⟨hno, hnl⟩, hnr⟩ := hn
     simp only [walkExpr] at h
     cases hop : tok.toOp with
     | none => simp [hop] at h
@@ -370,11 +345,11 @@ theorem sound_expr (c : Ctx) : (e : Expr) → nno e = true → ExprSound c e
       · obtain ⟨lo, rfl⟩ := hlog
         simp only [hop] at h
         obtain ⟨left, s1, h1, h2⟩ := bind_ok h
-        obtain ⟨hext1, ht1⟩ := rvalue_of_expr (sound_expr c l hnl) s s1 sc left hinv h1
+        obtain ⟨hext1, ht1⟩ := rvalue_of_expr (sound_expr c l) s s1 sc left hinv h1
         obtain ⟨ll, s2, h3, h4⟩ := bind_ok h2
         have hext2 := markBranchPoint_ok h3
         obtain ⟨right, s3, h5, h6⟩ := bind_ok h4
-        obtain ⟨hext3, ht3⟩ := rvalue_of_expr (sound_expr c r hnr) s2 s3 sc right ((hinv.ext hext1).ext hext2) h5
+        obtain ⟨hext3, ht3⟩ := rvalue_of_expr (sound_expr c r) s2 s3 sc right ((hinv.ext hext1).ext hext2) h5
         obtain ⟨rl, s4, h7, h8⟩ := bind_ok h6
         have hext4 := markBranchPoint_ok h7
         obtain ⟨u1, s5, h9, h10⟩ := bind_ok h8
@@ -403,9 +378,9 @@ theorem sound_expr (c : Ctx) : (e : Expr) → nno e = true → ExprSound c e
           | logical lo => exact absurd rfl (hlog' lo)
           | _ => simpa only [hop] using h
         obtain ⟨left, s1, h1, h2⟩ := bind_ok hsplit
-        obtain ⟨hext1, ht1⟩ := rvalue_of_expr (sound_expr c l hnl) s s1 sc left hinv h1
+        obtain ⟨hext1, ht1⟩ := rvalue_of_expr (sound_expr c l) s s1 sc left hinv h1
         obtain ⟨right, s2, h3, h4⟩ := bind_ok h2
-        obtain ⟨hext2, ht2⟩ := rvalue_of_expr (sound_expr c r hnr) s1 s2 sc right (hinv.ext hext1) h3
+        obtain ⟨hext2, ht2⟩ := rvalue_of_expr (sound_expr c r) s1 s2 sc right (hinv.ext hext1) h3
         obtain ⟨b, s3, h5, h6⟩ := bind_ok h4
         simp at h5
         obtain ⟨rfl, rfl⟩ := h5
@@ -413,29 +388,17 @@ theorem sound_expr (c : Ctx) : (e : Expr) → nno e = true → ExprSound c e
         simp at h8
         obtain ⟨rfl, rfl⟩ := h8
         obtain ⟨b', h9, rfl⟩ := consume_ok h7
-        have hnord : isNullOrdering op left right = false := by
-          cases hx : isNullOrdering op left right with
-          | false => rfl
-          | true =>
-            exfalso
-            obtain ⟨hl0, hr0, cc, hcc, hord⟩ := isNullOrdering_true hx
-            have e1 : l = .null := typeOf_null (by rw [ht1, const_null_typeDesc hl0])
-            have e2 : r = .null := typeOf_null (by rw [ht2, const_null_typeDesc hr0])
-            subst hcc
-            have := ordering_tok hop hord
-            simp [this, e1, e2, isNullLit] at hno
-        obtain ⟨hb, hg⟩ := visitBinaryExpression_ok hlog' hnord h9
+        obtain ⟨hb, hg⟩ := visitBinaryExpression_ok hlog' h9
         refine ⟨(hext1.trans hext2).trans (Ext.setB _ _ hg), _, ?_, Rel.item x⟩
         simp only [resolve, valueOfR_resolve, binaryOf_eq, hop, ht1, ht2]
         cases op with
         | logical lo => exact absurd rfl (hlog' lo)
         | _ => simp only [worldOf_env, hb]
-  | .as_ v ty, hn => by
+  | .as_ v ty => by
     intro s s' sc i hinv h
-    simp only [nno] at hn
     simp only [walkExpr] at h
     obtain ⟨val, s1, h1, h2⟩ := bind_ok h
-    obtain ⟨hext1, ht1⟩ := rvalue_of_expr (sound_expr c v hn) s s1 sc val hinv h1
+    obtain ⟨hext1, ht1⟩ := rvalue_of_expr (sound_expr c v) s s1 sc val hinv h1
     obtain ⟨k, s2, h3, h4⟩ := bind_ok h2
     obtain ⟨rfl, hk⟩ := processTypeAnnotation_ok h3
     obtain ⟨b, s3, h5, h6⟩ := bind_ok h4
@@ -448,23 +411,21 @@ theorem sound_expr (c : Ctx) : (e : Expr) → nno e = true → ExprSound c e
     obtain ⟨hc, hx, hg⟩ := visitAsExpression_ok h9
     refine ⟨hext1.trans (Ext.setB _ _ hg), .val (.concrete k), ?_, item_rel hx⟩
     simp only [resolve, valueOfR_resolve, ht1, worldOf_env, hk, hc, if_true]
-  | .ternary cnd a b, hn => by
+  | .ternary cnd a b => by
     intro s s' sc i hinv h
-    simp only [nno, Bool.and_eq_true] at hn
-    obtain ⟨⟨hnc, hna⟩, hnb⟩ := hn
     simp only [walkExpr] at h
     obtain ⟨cv, s1, h1, h2⟩ := bind_ok h
-    obtain ⟨hext1, ht1⟩ := rvalue_of_expr (sound_expr c cnd hnc) s s1 sc cv hinv h1
+    obtain ⟨hext1, ht1⟩ := rvalue_of_expr (sound_expr c cnd) s s1 sc cv hinv h1
     obtain ⟨cl, s2, h3, h4⟩ := bind_ok h2
     have hext2 := markBranchPoint_ok h3
     have hinv2 := (hinv.ext hext1).ext hext2
     obtain ⟨av, s3, h5, h6⟩ := bind_ok h4
-    obtain ⟨hext3, ht3⟩ := rvalue_of_expr (sound_expr c a hna) s2 s3 sc av hinv2 h5
+    obtain ⟨hext3, ht3⟩ := rvalue_of_expr (sound_expr c a) s2 s3 sc av hinv2 h5
     obtain ⟨al, s4, h7, h8⟩ := bind_ok h6
     have hext4 := markBranchPoint_ok h7
     have hinv4 := (hinv2.ext hext3).ext hext4
     obtain ⟨bv, s5, h9, h10⟩ := bind_ok h8
-    obtain ⟨hext5, ht5⟩ := rvalue_of_expr (sound_expr c b hnb) s4 s5 sc bv hinv4 h9
+    obtain ⟨hext5, ht5⟩ := rvalue_of_expr (sound_expr c b) s4 s5 sc bv hinv4 h9
     obtain ⟨bl, s6, h11, h12⟩ := bind_ok h10
     have hext6 := markBranchPoint_ok h11
     obtain ⟨u1, s7, h13, h14⟩ := bind_ok h12
@@ -481,20 +442,19 @@ theorem sound_expr (c : Ctx) : (e : Expr) → nno e = true → ExprSound c e
     simp only [resolve, valueOfR_resolve, ht1, ht3, ht5, hcb, worldOf_env, hk]
     simp
 
-theorem sound_rvalues (c : Ctx) : (es : List Expr) → nnoList es = true → RvalsSound c es
-  | [], _ => by
+theorem sound_rvalues (c : Ctx) : (es : List Expr) → RvalsSound c es
+  | [] => by
     intro s s' sc as hinv h
     simp [walkRvalues] at h
     obtain ⟨rfl, rfl⟩ := h
     exact ⟨Ext.refl _, by simp [typeOfList]⟩
-  | e :: es, hn => by
+  | e :: es => by
     intro s s' sc as hinv h
-    simp only [nnoList, Bool.and_eq_true] at hn
     simp only [walkRvalues] at h
     obtain ⟨a, s1, h1, h2⟩ := bind_ok h
-    obtain ⟨hext1, ht1⟩ := rvalue_of_expr (sound_expr c e hn.1) s s1 sc a hinv h1
+    obtain ⟨hext1, ht1⟩ := rvalue_of_expr (sound_expr c e) s s1 sc a hinv h1
     obtain ⟨rest, s2, h3, h4⟩ := bind_ok h2
-    obtain ⟨hext2, ht2⟩ := sound_rvalues c es hn.2 s1 s2 sc rest (hinv.ext hext1) h3
+    obtain ⟨hext2, ht2⟩ := sound_rvalues c es s1 s2 sc rest (hinv.ext hext1) h3
     simp at h4
     obtain ⟨rfl, rfl⟩ := h4
     exact ⟨hext1.trans hext2, by simp only [typeOfList, valueOfR_resolve, ht1, ht2, List.map_cons]⟩
@@ -508,7 +468,7 @@ theorem inv_init : Inv {} [] := by
 
 /-- a binding or callback that is ONE expression: if `tir::build` / `build_callback` produce code for it, the
     specification types the expression (in the empty scope), whatever diagnostics were pushed -/
-theorem build_expr_sound (c : Ctx) (callback : Bool) (e : Expr) (hn : nno e = true)
+theorem build_expr_sound (c : Ctx) (callback : Bool) (e : Expr)
     (h : (build c callback (.stmt (.expr e))).code.isSome = true) :
     ∃ t, typeOf (worldOf c) [] e = .ok t := by
   unfold build at h
@@ -525,7 +485,7 @@ theorem build_expr_sound (c : Ctx) (callback : Bool) (e : Expr) (hn : nno e = tr
   | none => simp at h
   | some u =>
     obtain ⟨a, s1, h1, _⟩ := bind_ok hrun
-    obtain ⟨_, ht⟩ := rvalue_of_expr (sound_expr c e hn) {} s1 [] a inv_init h1
+    obtain ⟨_, ht⟩ := rvalue_of_expr (sound_expr c e) {} s1 [] a inv_init h1
     exact ⟨_, ht⟩
 
 end QV.Proofs.TypingSound
